@@ -36,12 +36,12 @@ HARNESSES = [
   dict(name='pool_create', unit='entry', harness='h_entry.c', defines={'H': 6, 'REAL_BUF': None, 'BUF': 64}, scenarios=[{}, {'NOINIT': None}], cbmc=['--unwind', '4'],
        desc='pool_create_v1: parameter checks (pAlloc, version, pFree unless fixed, reserved bits) before anything is allocated; failure of doInitialization / descriptor allocation / MemoryPool::init => NO_MEMORY, *pool=NULL, descriptor given back exactly once',
        bounds={'policy fields': 'all symbolic', 'MemoryPool::init': 'cut: symbolic success/failure'}),
-  dict(name='llo', unit='llo', harness='h_llo.c', defines={'H': 1}, scenarios=[{'TLS': 0}, {'TLS': 1}], cbmc=['--unwind', '4', '--object-bits', '12'], timeout=900,
-       desc='getFromLLOCache: size+headers+alignment / alignToBin wrap-around => NULL without reaching the backend, never a too-small block; returned object aligned, behind the header, inside the block, header/back reference consistent; cache-line shuffle (tls) stays inside the block',
-       bounds={'size': 'full 64 bit', 'alignment': '2^6..2^63', 'blocks that can succeed': '<= 64 KB arena (larger requests: backend stub fails)', 'tls': 'NULL | object with symbolic currCacheIdx, empty local cache'}),
-  dict(name='alloc_aligned_wide', unit='llo', harness='h_llo.c', defines={'H': 2, 'TLS': 2}, scenarios=[{'SIZE_LT': 16384}, {'SIZE_GE': 16384}], cbmc=['--unwind', '4', '--object-bits', '12'], timeout=900,
-       desc='allocateAligned end to end through the real getFromLLOCache for extreme arguments: own additions (alignUp(size,alignment), size+alignment) do not wrap, result aligned and inside the inner block, NULL iff inner allocation failed or the size is unrepresentable',
-       bounds={'size': 'full 64 bit', 'alignment': '2^0..2^63'}),
+  dict(name='llo_arith', unit='llo', harness='h_llo.c', defines={'H': 1, 'ARITH': None}, scenarios=[{'TLS': 0}, {'TLS': 1}], cbmc=['--unwind', '4', '--object-bits', '12'], timeout=900,
+       desc='getFromLLOCache size arithmetic: size+headers+alignment / alignToBin wrap-around => NULL without reaching the backend; the backend is never asked for less than size+headers+alignment; a representable request is never refused before the backend',
+       bounds={'size': 'full 64 bit', 'alignment': '2^6..2^63 (symbolic)', 'backend': 'stub always fails (arithmetic only, nothing dereferenced)'}),
+  dict(name='llo_place', unit='llo', harness='h_llo.c', defines={'H': 1}, scenarios=[{'TLS': t, 'LG': lg} for t in (0, 1) for lg in (6, 7, 9)], cbmc=['--unwind', '4', '--object-bits', '12'], timeout=900,
+       desc='getFromLLOCache placement: returned object aligned, behind the block header, inside the block, LargeObjectHdr/back reference consistent, objectSize recorded; with tls: the cache-line shuffle stays inside the block; backend failure => NULL and nothing recorded',
+       bounds={'size': 'full 64 bit', 'alignment': '64,128,512 (concrete per query)', 'block': 'first 1 KB backed by a real object: success only when alignedRight lies inside it (shuffle room <= 1 KB)', 'tls': 'NULL | object with symbolic currCacheIdx, empty local cache'}),
 ]
 OUTSIDE = []
 STUBS = []
